@@ -57,15 +57,14 @@ var (
 // v1.LatestRevision calls the state that decides whether a new revision is
 // needed (labels, annotations and spec).
 type content struct {
-	Spec   int `json:"spec"`
-	Labels int `json:"labels"`
-	Ann    int `json:"ann"`
+	Spec   int               `json:"spec"`
+	Labels map[string]string `json:"labels"`
+	Ann    int               `json:"ann"`
 }
 
 const (
-	nSpecs  = 4
-	nLabels = 4
-	nAnns   = 3
+	nSpecs = 4
+	nAnns  = 3
 )
 
 func raw(s string) *runtime.RawExtension { return &runtime.RawExtension{Raw: []byte(s)} }
@@ -93,20 +92,103 @@ func specVariant(i int) v1.CompositionSpec {
 	}
 }
 
-// Composition labels. Domain restriction (documented in DESIGN.md C12): label
-// keys reserved for the revision's own bookkeeping (crossplane.io/composition-*)
-// are never put on the Composition.
-func labelVariant(i int) map[string]string {
-	switch i {
-	case 0:
-		return nil
-	case 1:
-		return map[string]string{"channel": "stable"}
-	case 2:
-		return map[string]string{"channel": "beta"}
-	default:
-		return map[string]string{"channel": "stable", "tier": "gold"}
+// Label keys a Composition (and an XR's compositionRevisionSelector) may use:
+// plain keys and keys under the crossplane.io domain, e.g. the documented
+// crossplane.io/xrd. Domain restriction, stated precisely: ONLY the two keys the
+// revision controller itself sets on a revision - v1.LabelCompositionName
+// (crossplane.io/composition-name) and v1.LabelCompositionHash
+// (crossplane.io/composition-hash) - are never used as Composition labels or
+// selector keys; every other key, under crossplane.io/ or not, is in scope.
+var labelKeys = []string{"channel", "tier", "crossplane.io/xrd", "crossplane.io/foo", "sub.crossplane.io/x"}
+
+var labelVals = map[string][]string{
+	"channel":             {"stable", "beta"},
+	"tier":                {"gold", "silver"},
+	"crossplane.io/xrd":   {"xthings.example.org", "xothers.example.org"},
+	"crossplane.io/foo":   {"a", "b"},
+	"sub.crossplane.io/x": {"1", "2"},
+}
+
+func reservedLabel(k string) bool {
+	return k == v1.LabelCompositionName || k == v1.LabelCompositionHash
+}
+
+func xpDomain(k string) bool { return strings.Contains(k, "crossplane.io/") }
+
+func hasXPDomainKey(m map[string]string) bool {
+	for k := range m {
+		if xpDomain(k) {
+			return true
+		}
 	}
+	return false
+}
+
+func copyLabels(m map[string]string) map[string]string {
+	if len(m) == 0 {
+		return nil
+	}
+	o := make(map[string]string, len(m))
+	for k, v := range m {
+		o[k] = v
+	}
+	return o
+}
+
+// withoutReserved returns labels minus the two keys the revision controller sets itself.
+func withoutReserved(m map[string]string) map[string]string {
+	o := map[string]string{}
+	for k, v := range m {
+		if !reservedLabel(k) {
+			o[k] = v
+		}
+	}
+	return o
+}
+
+func sameLabels(a, b map[string]string) bool {
+	if len(a) != len(b) {
+		return false
+	}
+	for k, v := range a {
+		if bv, ok := b[k]; !ok || bv != v {
+			return false
+		}
+	}
+	return true
+}
+
+// genLabels draws 0-3 labels from the key pool.
+func genLabels(t *rapid.T) map[string]string {
+	m := map[string]string{}
+	for i, n := 0, rapid.IntRange(0, 3).Draw(t, "nlabels"); i < n; i++ {
+		k := rapid.SampledFrom(labelKeys).Draw(t, "labelkey")
+		m[k] = rapid.SampledFrom(labelVals[k]).Draw(t, "labelval")
+	}
+	return copyLabels(m)
+}
+
+// changeLabels returns labels that differ from base in exactly one key (added, removed, or other value).
+func changeLabels(t *rapid.T, base map[string]string) map[string]string {
+	out := map[string]string{}
+	for k, v := range base {
+		out[k] = v
+	}
+	k := rapid.SampledFrom(labelKeys).Draw(t, "dlabelkey")
+	cur, ok := base[k]
+	switch {
+	case !ok:
+		out[k] = rapid.SampledFrom(labelVals[k]).Draw(t, "dlabelval")
+	case rapid.Bool().Draw(t, "dlabelremove"):
+		delete(out, k)
+	default:
+		for _, v := range labelVals[k] {
+			if v != cur {
+				out[k] = v
+			}
+		}
+	}
+	return copyLabels(out)
 }
 
 func annVariant(i int) map[string]string {
@@ -120,31 +202,42 @@ func annVariant(i int) map[string]string {
 	}
 }
 
-// selectors an XR may carry (nil = no selector). matchLabels is required by
-// the XR CRD schema (internal/xcrd), so it is always present.
-func selectorVariant(i int) *metav1.LabelSelector {
-	switch i {
+// genSelector draws the matchLabels of an XR's compositionRevisionSelector (nil = no
+// selector). matchLabels is required by the XR CRD schema (internal/xcrd), so a selector always
+// has it (possibly empty). Selectors are mostly built from the labels of one of the contents, so
+// that they match something; sometimes from an arbitrary pair of the key pool.
+func genSelector(t *rapid.T, pool []content) (map[string]string, string) {
+	switch rapid.IntRange(0, 5).Draw(t, "selkind") {
 	case 0:
-		return nil
+		return nil, "none"
 	case 1:
-		return &metav1.LabelSelector{MatchLabels: map[string]string{}}
+		return map[string]string{}, "empty"
 	case 2:
-		return &metav1.LabelSelector{MatchLabels: map[string]string{"channel": "stable"}}
-	case 3:
-		return &metav1.LabelSelector{MatchLabels: map[string]string{"channel": "beta"}}
+		k := rapid.SampledFrom(labelKeys).Draw(t, "selkey")
+		return map[string]string{k: rapid.SampledFrom(labelVals[k]).Draw(t, "selval")}, "any-pair"
 	default:
-		return &metav1.LabelSelector{MatchLabels: map[string]string{"channel": "stable", "tier": "gold"}}
+		c := pool[rapid.IntRange(0, len(pool)-1).Draw(t, "selcontent")]
+		ks := make([]string, 0, len(c.Labels))
+		for k := range c.Labels {
+			ks = append(ks, k)
+		}
+		sort.Strings(ks)
+		m := map[string]string{}
+		for _, k := range ks {
+			if rapid.IntRange(0, 3).Draw(t, "selkeep") != 0 {
+				m[k] = c.Labels[k]
+			}
+		}
+		return m, "from-content"
 	}
 }
-
-const nSelectors = 5
 
 // genPool draws 4 pairwise distinct contents: a base, a spec-only change of
 // it, a label-only change of it, and an annotation-only change of it.
 func genPool(t *rapid.T) []content {
-	b := content{Spec: rapid.IntRange(0, nSpecs-1).Draw(t, "spec"), Labels: rapid.IntRange(0, nLabels-1).Draw(t, "labels"), Ann: rapid.IntRange(0, nAnns-1).Draw(t, "ann")}
+	b := content{Spec: rapid.IntRange(0, nSpecs-1).Draw(t, "spec"), Labels: genLabels(t), Ann: rapid.IntRange(0, nAnns-1).Draw(t, "ann")}
 	s := content{Spec: (b.Spec + rapid.IntRange(1, nSpecs-1).Draw(t, "dspec")) % nSpecs, Labels: b.Labels, Ann: b.Ann}
-	l := content{Spec: b.Spec, Labels: (b.Labels + rapid.IntRange(1, nLabels-1).Draw(t, "dlabels")) % nLabels, Ann: b.Ann}
+	l := content{Spec: b.Spec, Labels: changeLabels(t, b.Labels), Ann: b.Ann}
 	a := content{Spec: b.Spec, Labels: b.Labels, Ann: (b.Ann + rapid.IntRange(1, nAnns-1).Draw(t, "dann")) % nAnns}
 	return []content{b, s, l, a}
 }
@@ -192,7 +285,7 @@ func newWorld(pool []content, first int, fail func(string, ...any)) *world {
 	}
 	w.sim.AddMonitor(w.monitor)
 	c := w.pool[first]
-	comp := &v1.Composition{ObjectMeta: metav1.ObjectMeta{Name: compName, Labels: labelVariant(c.Labels), Annotations: annVariant(c.Ann)}, Spec: specVariant(c.Spec)}
+	comp := &v1.Composition{ObjectMeta: metav1.ObjectMeta{Name: compName, Labels: copyLabels(c.Labels), Annotations: annVariant(c.Ann)}, Spec: specVariant(c.Spec)}
 	if err := w.sim.Client("user").Create(context.Background(), comp); err != nil {
 		panic(err)
 	}
@@ -251,6 +344,11 @@ func (w *world) monitor(v *verifsim.View, wr *verifsim.Write) {
 		cs, _ := json.Marshal(comp["spec"])
 		if got := specMinusRevision(wr.After); got != string(cs) {
 			v.Violate("faithful: revision %s was created with spec (minus revision) %s but the Composition's spec is %s", name, got, cs)
+		}
+		// A faithful copy carries ALL labels of the Composition (that is what revision selectors
+		// match), and nothing but them and the two labels the controller sets itself.
+		if cl, rl := verifsim.Labels(comp), withoutReserved(verifsim.Labels(wr.After)); !sameLabels(cl, rl) {
+			v.Violate("faithful: revision %s was created with labels %v (apart from %s and %s) but the Composition's labels are %v", name, rl, v1.LabelCompositionName, v1.LabelCompositionHash, cl)
 		}
 		if other, ok := w.revOf[w.cur]; ok {
 			v.Violate("exactly-one: revision %s was created for content %d %+v which is already captured by revision %s", name, w.cur, w.pool[w.cur], other)
@@ -336,6 +434,9 @@ func (w *world) checkHistory(ctx string) {
 		if got := specMinusRevision(o); got != w.specJSON[i] {
 			w.failf("%s: faithful: revision %s of content %d has spec (minus revision) %s, the content's spec is %s", ctx, name, i, got, w.specJSON[i])
 		}
+		if got := withoutReserved(verifsim.Labels(o)); !sameLabels(got, w.pool[i].Labels) {
+			w.failf("%s: faithful: revision %s of content %d has labels %v (apart from the two set by the controller), the content's labels are %v", ctx, name, i, got, w.pool[i].Labels)
+		}
 	}
 	if !w.synced {
 		return
@@ -385,7 +486,7 @@ func (w *world) edit(i int) string {
 	if err := cl.Get(context.Background(), types.NamespacedName{Name: compName}, comp); err != nil {
 		panic(err)
 	}
-	comp.SetLabels(labelVariant(c.Labels))
+	comp.SetLabels(copyLabels(c.Labels))
 	comp.SetAnnotations(annVariant(c.Ann))
 	comp.Spec = specVariant(c.Spec)
 	if err := cl.Update(context.Background(), comp); err != nil {
@@ -399,7 +500,7 @@ func (w *world) edit(i int) string {
 		kind = "revert"
 	case c.Spec != old.Spec:
 		kind = "spec"
-	case c.Labels != old.Labels:
+	case !sameLabels(c.Labels, old.Labels):
 		kind = "label-only"
 	case c.Ann != old.Ann:
 		kind = "annotation-only"
@@ -482,9 +583,9 @@ func (w *world) strip() {
 }
 
 // xrSet: the user creates XR slot i, or changes its update policy / revision selector.
-func (w *world) xrSet(i, pol, sel int) {
+func (w *world) xrSet(i, pol int, sel map[string]string) {
 	s := &w.xrs[i]
-	w.hist = append(w.hist, fmt.Sprintf("xrSet(%s,pol=%d,sel=%d)", s.name, pol, sel))
+	w.hist = append(w.hist, fmt.Sprintf("xrSet(%s,pol=%d,sel=%s)", s.name, pol, selString(sel)))
 	cl := w.sim.Client("user")
 	xr := verifenv.NewUnstructuredXR(verifenv.XRGVKDefault, s.name)
 	if s.made {
@@ -502,11 +603,11 @@ func (w *world) xrSet(i, pol, sel int) {
 	default:
 		spec["compositionUpdatePolicy"] = string(xpv1.UpdateManual)
 	}
-	if ls := selectorVariant(sel); ls == nil {
+	if sel == nil {
 		delete(spec, "compositionRevisionSelector")
 	} else {
 		ml := map[string]any{}
-		for k, v := range ls.MatchLabels {
+		for k, v := range sel {
 			ml[k] = v
 		}
 		spec["compositionRevisionSelector"] = map[string]any{"matchLabels": ml}
@@ -521,6 +622,13 @@ func (w *world) xrSet(i, pol, sel int) {
 		panic(err)
 	}
 	s.made = true
+}
+
+func selString(sel map[string]string) string {
+	if sel == nil {
+		return "none"
+	}
+	return verifkit.JSON(sel)
 }
 
 func xrRef(o verifsim.Obj) string {
@@ -568,7 +676,13 @@ func (w *world) xrFetch(i int, plan map[int]verifsim.Fault) string {
 		var max int64
 		names := map[string]bool{}
 		for n, o := range revs {
-			if verifsim.ControllerUID(o) != uid || !subset(restrict, verifsim.Labels(o)) {
+			// The selector clause is evaluated against the content the revision captures (the
+			// independent attribution), not against the labels the revision happens to carry.
+			c, attributed := w.ofRev[n]
+			if !attributed {
+				w.failf("%s: revision %s exists but was never seen being created", ctx, n)
+			}
+			if verifsim.ControllerUID(o) != uid || !subset(restrict, w.pool[c].Labels) {
 				continue
 			}
 			switch m := revNumber(o); {
@@ -634,6 +748,9 @@ func (w *world) xrFetch(i int, plan map[int]verifsim.Fault) string {
 	case pol == string(xpv1.UpdateAutomatic) && hasSel:
 		accept = []map[string]string{sel}
 		class = "xr-automatic+selector"
+		if hasXPDomainKey(sel) {
+			class = "xr-automatic+selector(crossplane.io key)"
+		}
 	case pol == string(xpv1.UpdateAutomatic):
 		accept = []map[string]string{nil}
 	case pol == string(xpv1.UpdateManual):
@@ -667,7 +784,7 @@ func (w *world) xrFetch(i int, plan map[int]verifsim.Fault) string {
 		}
 		// End to end: once the revision controller has succeeded for the current content, an
 		// Automatic XR whose selector admits the current content's labels uses the current content.
-		if w.synced && len(accept) == 1 && subset(accept[0], labelVariant(w.pool[w.cur].Labels)) && got.GetName() != w.revOf[w.cur] {
+		if w.synced && len(accept) == 1 && subset(accept[0], w.pool[w.cur].Labels) && got.GetName() != w.revOf[w.cur] {
 			w.failf("%s: automatic: the Composition's current content %d is captured by revision %s, but XR %s (policy %q, selector %v) was moved to revision %s (content %v)", ctx, w.cur, w.revOf[w.cur], s.name, pol, sel, got.GetName(), w.ofRev[got.GetName()])
 		}
 		if newRef != oldRef {
@@ -682,8 +799,8 @@ func (w *world) xrFetch(i int, plan map[int]verifsim.Fault) string {
 		if newRef != oldRef {
 			w.failf("%s: automatic: fetch failed but XR %s now references %q (was %q)", ctx, s.name, newRef, oldRef)
 		}
-		if w.synced && len(accept) == 1 && subset(accept[0], labelVariant(w.pool[w.cur].Labels)) {
-			w.failf("%s: automatic: the revision controller has succeeded for the current content %d (labels %v, revision %s) but XR %s (policy %q, selector %v) finds no revision: %v", ctx, w.cur, labelVariant(w.pool[w.cur].Labels), w.revOf[w.cur], s.name, pol, sel, err)
+		if w.synced && len(accept) == 1 && subset(accept[0], w.pool[w.cur].Labels) {
+			w.failf("%s: automatic: the revision controller has succeeded for the current content %d (labels %v, revision %s) but XR %s (policy %q, selector %v) finds no revision: %v", ctx, w.cur, w.pool[w.cur].Labels, w.revOf[w.cur], s.name, pol, sel, err)
 		}
 		class += ":none-qualifies"
 	default:
@@ -730,11 +847,11 @@ var faultKinds = []verifsim.Fault{
 }
 
 type modelSnap struct {
-	revOf                                             map[int]string
-	ofRev                                             map[string]int
-	done                                              map[int]bool
-	synced                                            bool
-	hist                                              int
+	revOf                                            map[int]string
+	ofRev                                            map[string]int
+	done                                             map[int]bool
+	synced                                           bool
+	hist                                             int
 	renumbers, adoptions, creates, strips, faultHits int
 }
 
@@ -849,7 +966,17 @@ func TestVerifC12Histories(t *testing.T) {
 				if rapid.IntRange(0, 9).Draw(t, "noop") == 0 {
 					i = w.cur
 				}
-				rec.Label("edit:" + w.edit(i))
+				old := pool[w.cur].Labels
+				kind := w.edit(i)
+				rec.Label("edit:" + kind)
+				if kind == "label-only" || kind == "revert" {
+					for _, k := range labelKeys {
+						if xpDomain(k) && old[k] != pool[i].Labels[k] {
+							rec.Label("edit:changes-crossplane.io-label")
+							break
+						}
+					}
+				}
 			},
 			"reconcile": func(t *rapid.T) {
 				plan := genPlan(t, 9)
@@ -885,9 +1012,12 @@ func TestVerifC12Histories(t *testing.T) {
 			},
 			"xrSet": func(t *rapid.T) {
 				pol := rapid.IntRange(0, 2).Draw(t, "policy")
-				sel := rapid.IntRange(0, nSelectors-1).Draw(t, "selector")
+				sel, kind := genSelector(t, pool)
 				w.xrSet(rapid.IntRange(0, len(w.xrs)-1).Draw(t, "xr"), pol, sel)
-				rec.Labelf("xrSet:policy=%s,selector=%v", []string{"unset", "Automatic", "Manual"}[pol], sel > 0)
+				rec.Labelf("xrSet:policy=%s,selector=%s", []string{"unset", "Automatic", "Manual"}[pol], kind)
+				if hasXPDomainKey(sel) {
+					rec.Labelf("xrSet:policy=%s,selector-has-crossplane.io-key", []string{"unset", "Automatic", "Manual"}[pol])
+				}
 			},
 			"xrFetch": func(t *rapid.T) {
 				plan := map[int]verifsim.Fault{}
@@ -936,14 +1066,27 @@ type step struct {
 	op   string
 	arg  int
 	arg2 int
-	arg3 int
+	sel  map[string]string // xrSet: matchLabels of the revision selector (nil = no selector)
 	plan map[int]verifsim.Fault
 }
 
-var pinnedPool = []content{{0, 0, 0}, {1, 0, 0}, {0, 1, 0}, {0, 0, 1}}
+var pinnedPool = []content{{0, nil, 0}, {1, nil, 0}, {0, map[string]string{"channel": "stable"}, 0}, {0, nil, 1}}
+
+// xpPool: contents whose labels live under the crossplane.io domain (but are not the two
+// labels the revision controller sets itself), e.g. the documented crossplane.io/xrd.
+var xpPool = []content{
+	{0, map[string]string{"crossplane.io/xrd": "xthings.example.org"}, 0},
+	{1, map[string]string{"crossplane.io/xrd": "xthings.example.org", "sub.crossplane.io/x": "1"}, 0},
+	{0, map[string]string{"crossplane.io/xrd": "xthings.example.org", "crossplane.io/foo": "a", "channel": "stable"}, 0},
+	{0, nil, 0},
+}
 
 func runPinned(fail func(string, ...any), steps []step) *world {
-	w := newWorld(pinnedPool, steps[0].arg, fail)
+	return runPinnedPool(pinnedPool, fail, steps)
+}
+
+func runPinnedPool(pool []content, fail func(string, ...any), steps []step) *world {
+	w := newWorld(pool, steps[0].arg, fail)
 	for _, s := range steps[1:] {
 		switch s.op {
 		case "edit":
@@ -953,7 +1096,7 @@ func runPinned(fail func(string, ...any), steps []step) *world {
 		case "strip":
 			w.strip()
 		case "xrSet":
-			w.xrSet(s.arg, s.arg2, s.arg3)
+			w.xrSet(s.arg, s.arg2, s.sel)
 		case "xrFetch":
 			w.xrFetch(s.arg, s.plan)
 		case "sweep":
@@ -986,7 +1129,7 @@ func TestVerifC12Pinned(t *testing.T) {
 		// Same cause, adoption interrupted after the first revision: only A#1 is controlled when C is created -> C#2 ties with B#2.
 		{"restore-partial-adoption", []step{{op: "create", arg: 0}, {op: "reconcile"}, {op: "edit", arg: 1}, {op: "reconcile"}, {op: "strip"}, {op: "reconcile", plan: map[int]verifsim.Fault{2: crashAfter}}, {op: "edit", arg: 2}, {op: "reconcile"}}},
 		// The end-to-end consequence: an Automatic XR is moved to stale content after the restore.
-		{"restore-automatic-xr-stale", []step{{op: "create", arg: 0}, {op: "reconcile"}, {op: "edit", arg: 1}, {op: "reconcile"}, {op: "xrSet", arg: 0, arg2: 1, arg3: 0}, {op: "xrFetch", arg: 0}, {op: "strip"}, {op: "reconcile"}, {op: "xrFetch", arg: 0}}},
+		{"restore-automatic-xr-stale", []step{{op: "create", arg: 0}, {op: "reconcile"}, {op: "edit", arg: 1}, {op: "reconcile"}, {op: "xrSet", arg: 0, arg2: 1}, {op: "xrFetch", arg: 0}, {op: "strip"}, {op: "reconcile"}, {op: "xrFetch", arg: 0}}},
 		// Documented behaviour: A -> B -> A keeps two revisions and renumbers A to 3.
 		{"a-b-a", []step{{op: "create", arg: 0}, {op: "reconcile"}, {op: "edit", arg: 1}, {op: "reconcile"}, {op: "edit", arg: 0}, {op: "reconcile"}, {op: "sweep", arg: 1}}},
 	}
@@ -997,12 +1140,41 @@ func TestVerifC12Pinned(t *testing.T) {
 	}
 }
 
+// TestVerifC12PinnedDomainLabels: Composition labels under the crossplane.io domain that are not
+// one of the two labels the controller sets itself (e.g. the documented crossplane.io/xrd) are part
+// of the content: they are copied to the revision, and revision selectors on them work. (Class of a
+// seeded change that dropped every crossplane.io/ label when copying labels to a new revision.)
+func TestVerifC12PinnedDomainLabels(t *testing.T) {
+	xrd := map[string]string{"crossplane.io/xrd": "xthings.example.org"}
+	w := runPinnedPool(xpPool, func(f string, a ...any) { t.Fatalf(f, a...) }, []step{{op: "create", arg: 0}, {op: "reconcile"},
+		{op: "xrSet", arg: 0, arg2: 1, sel: xrd}, {op: "xrFetch", arg: 0},
+		{op: "edit", arg: 1}, {op: "reconcile"}, {op: "xrFetch", arg: 0},
+		{op: "xrSet", arg: 1, arg2: 1, sel: map[string]string{"sub.crossplane.io/x": "1"}}, {op: "xrFetch", arg: 1},
+		{op: "edit", arg: 2}, {op: "reconcile"},
+		{op: "xrSet", arg: 2, arg2: 1, sel: map[string]string{"crossplane.io/foo": "a", "channel": "stable"}},
+		{op: "xrFetch", arg: 0}, {op: "xrFetch", arg: 1}, {op: "xrFetch", arg: 2},
+		{op: "edit", arg: 3}, {op: "reconcile"}, {op: "strip"}, {op: "reconcile"},
+		{op: "xrFetch", arg: 0}, {op: "xrFetch", arg: 1}, {op: "xrFetch", arg: 2}})
+	ref := func(i int) string {
+		return xrRef(w.sim.Get(verifsim.Key{Group: verifenv.XRGVKDefault.Group, Kind: verifenv.XRGVKDefault.Kind, Name: w.xrs[i].name}))
+	}
+	if ref(0) != w.revOf[2] || ref(1) != w.revOf[1] || ref(2) != w.revOf[2] {
+		t.Fatalf("XR references: selector crossplane.io/xrd -> %s (want %s), sub.crossplane.io/x -> %s (want %s), crossplane.io/foo+channel -> %s (want %s); %s",
+			ref(0), w.revOf[2], ref(1), w.revOf[1], ref(2), w.revOf[2], w.describeRevs())
+	}
+	for c, name := range w.revOf {
+		if got := withoutReserved(verifsim.Labels(w.revs()[name])); !sameLabels(got, xpPool[c].Labels) {
+			t.Fatalf("revision %s of content %d has labels %v, want %v", name, c, got, xpPool[c].Labels)
+		}
+	}
+}
+
 // TestVerifC12Sanity guards against a vacuous harness: the controllers really
 // create, renumber and adopt revisions, and XRs really move.
 func TestVerifC12Sanity(t *testing.T) {
 	fail := func(f string, a ...any) { t.Fatalf(f, a...) }
 	w := runPinned(fail, []step{{op: "create", arg: 0}, {op: "reconcile"}, {op: "edit", arg: 2}, {op: "reconcile"}, {op: "edit", arg: 3}, {op: "reconcile"}, {op: "edit", arg: 0}, {op: "reconcile"},
-		{op: "xrSet", arg: 0, arg2: 1, arg3: 0}, {op: "xrSet", arg: 1, arg2: 2, arg3: 0}, {op: "xrSet", arg: 2, arg2: 1, arg3: 2},
+		{op: "xrSet", arg: 0, arg2: 1}, {op: "xrSet", arg: 1, arg2: 2}, {op: "xrSet", arg: 2, arg2: 1, sel: map[string]string{"channel": "stable"}},
 		{op: "xrFetch", arg: 0}, {op: "xrFetch", arg: 1}, {op: "xrFetch", arg: 2}, {op: "edit", arg: 3}, {op: "reconcile"},
 		{op: "xrFetch", arg: 0}, {op: "xrFetch", arg: 1}, {op: "xrFetch", arg: 2}})
 	revs := w.revs()
